@@ -270,7 +270,11 @@ pub fn layout_sources(opts: &Opts, rng: &mut Rng) -> Vec<(String, Layout, Vec<Ke
         let nk = rng.below(3);
         let mut keys = Vec::new();
         for k in [KeyCode::X, KeyCode::LEFTCTRL, KeyCode::F20, KeyCode::A, KeyCode::LEFTSHIFT].iter() { if keys.len() < nk && rng.chance(1, 2) { keys.push(*k); } }
-        m.repeat = Repeat::Special { keys, delay_ms: [0, 1, 130, 180][rng.below(4)], interval_ms: [0, 1, 30][rng.below(3)] };
+        m.repeat = Repeat::Special { keys: keys.clone(), delay_ms: [0, 1, 130, 180][rng.below(4)], interval_ms: [0, 1, 30][rng.below(3)] };
+        // sometimes a second Special mapping with the SAME repeat keys but its own delay / interval
+        if l.mappings.len() >= 2 && rng.chance(1, 2) {
+          l.mappings[1].repeat = Repeat::Special { keys, delay_ms: [200, 90, 1][rng.below(3)], interval_ms: [50, 7][rng.below(2)] };
+        }
       }
     }
     let a = h_layouts::alphabets_for(&l, rng, 1, 8).remove(0);
